@@ -111,7 +111,7 @@ def gen_pair(rng) -> dict:
 
     aspect = rng.choice(
         ["same", "same", "body", "closure", "input-value", "input-value", "input-type", "input-shape", "input-dtype",
-         "input-order", "input-layout", "input-rawbuffer", "argstr", "position", "sep", "formatter", "executable", "shell-input", "wf-closure"]
+         "input-order", "input-layout", "input-rawbuffer", "input-eqkeys", "argstr", "position", "sep", "formatter", "executable", "shell-input", "wf-closure"]
     )  # fmt: skip
     x = rng.randint(0, 50)
     if aspect == "same":
@@ -157,6 +157,13 @@ def gen_pair(rng) -> dict:
         a, b, same = H.gen_layout_pair(rng, "layout" if aspect == "input-layout" else "raw")
         body = ["return repr(x.shape) + str(x.dtype) + repr(x.tolist())"]
         return {"a": py(body, {"x": a}), "b": py(body, {"x": b}), "aspect": aspect, "equiv": same}
+    if aspect == "input-eqkeys":
+        # two inputs hashed with the task's shared Cache whose dict keys / set elements are Python-equal but of other type
+        k1, k2 = H.gen_eq_twins(rng)
+        how = rng.choice(["dict", "dict2", "frozenset", "plain"])
+        hx, hy, hy2 = H.eq_holder(rng, k1, how, _i(7)), H.eq_holder(rng, k1, how, _i(7)), H.eq_holder(rng, k2, how, _i(7))
+        body = ["return repr(x) + repr(y)"]
+        return {"a": py(body, {"x": hx, "y": hy}, params=("x", "y")), "b": py(body, {"x": hx, "y": hy2}, params=("x", "y")), "aspect": aspect, "equiv": False}
     if aspect == "input-order":
         items = [[_s(f"k{j}"), _i(rng.randint(0, 9))] for j in range(rng.randint(2, 4))]
         sh_items = list(items)
